@@ -524,11 +524,16 @@ class DataFileManager:
         # int/long column is stored as 1, and a datetime into a date column
         # loses its time of day. A value the declared type cannot represent is
         # rejected instead of being silently altered.
+        def _type_name(f: Dict[str, Any]) -> Any:
+            # a field type may be spelled {"type": "long"} (see _iceberg_type_to_arrow)
+            t = f.get("type")
+            return t.get("type") if isinstance(t, dict) else t
+
         integer_fields = {
-            str(f["name"]) for f in iceberg_schema.fields if f.get("type") in ("int", "long")
+            str(f["name"]) for f in iceberg_schema.fields if _type_name(f) in ("int", "long")
         }
         date_fields = {
-            str(f["name"]) for f in iceberg_schema.fields if f.get("type") == "date"
+            str(f["name"]) for f in iceberg_schema.fields if _type_name(f) == "date"
         }
 
         for i, record in enumerate(records):
